@@ -12,4 +12,4 @@ Definition map_size_calls (s : state) : nat := size (calls s).
 Definition conn_ids (s : state) : list N := (fun p => p.1) <$> map_to_list (conns s).
 Extraction "broker_model.ml" init step exits st conn_ids map_size_conns map_size_objs map_size_svcs
   map_size_chans map_size_lis map_size_calls N.of_nat N.to_nat
-  min_version_of msg_min_version.
+  min_version_of msg_min_version sm_choice.
